@@ -148,7 +148,7 @@ impl<C: Cfg> World<C> {
             }
             OP_GET => {
                 let idx = ch.pick(len as u32 + 2) as usize;
-                let view = ch.pick(12);
+                let view = ch.pick(15);
                 self.do_get(v, idx, view, tr);
             }
             OP_ITER => {
@@ -237,7 +237,7 @@ impl<C: Cfg> World<C> {
                 self.do_swap(v, i, ka, w, j, kb, tr);
             }
             OP_LAZY => {
-                let kind = ch.pick(6);
+                let kind = ch.pick(7);
                 let j = ch.pick(wlen.max(1) as u32) as usize;
                 let depth = 1 + ch.pick(3);
                 let copies = ch.pick(3) as usize; // LazyClone::clone copies
@@ -428,6 +428,15 @@ impl<C: Cfg> World<C> {
                 op.typed = ch.flip();
                 op.repl_len = ch.pick(5) as usize;
                 op.lie = [-2isize, -1, 1, 2][ch.pick(4) as usize];
+                // some of the removed items are taken first, from either end
+                let n = b - a;
+                op.calls = match ch.pick(4) {
+                    1 if n >= 1 => vec![false],
+                    2 if n >= 1 => vec![true],
+                    3 if n >= 2 => vec![true, false],
+                    _ => Vec::new(),
+                };
+                op.sinks = vec![ItemSink::Drop; op.calls.len()];
             }
             _ => {
                 // replacement sweep
@@ -476,10 +485,12 @@ impl<C: Cfg> World<C> {
                 None => usize::MAX,
             };
             if room >= 1 && !self.dead() {
+                let _ = write!(tr, " epilogue: ");
                 self.do_insert(s, None, Src::Typed, s, 0, 1, false, tr);
                 self.check_state("epilogue-push");
             }
             if room >= 2 && !self.dead() {
+                let _ = write!(tr, ", ");
                 self.do_insert(s, None, Src::Raw, s, 0, 1, false, tr);
                 self.check_state("epilogue-push-raw");
             }
@@ -572,8 +583,12 @@ impl<C: Cfg> World<C> {
                 self.check_state("usability-clear");
             }
             if room(self) && !self.dead() {
-                self.do_insert(s, None, Src::Typed, s, 0, 1, false, tr);
+                self.do_insert(s, None, Src::Raw, s, 0, 1, false, tr);
                 self.check_state("usability-push2");
+            }
+            if room(self) && !self.dead() {
+                self.do_insert(s, None, Src::Typed, s, 0, 1, false, tr);
+                self.check_state("usability-push3");
             }
         }
     }
